@@ -119,19 +119,8 @@ def rule_lookahead_restores(ctx, rep, rid: str, modules: Tuple[str, ...] = ("par
             pg = _Progress(ctx, ci)
             if not pg.cursors:
                 continue
-            # restore helpers: methods that write a cursor from (a component of) their own parameter
-            restorers: Set[str] = set()
-            savers: Set[str] = set()
-            for m in ci.all_methods:
-                if isinstance(m.node, ast.Lambda):
-                    continue
-                params = set(m.params()) - {"self"}
-                for x in m.own_nodes():
-                    if isinstance(x, ast.Assign) and pg._cursor_write(x) and params and any(isinstance(v, ast.Name) and v.id in params for v in ast.walk(x.value)):
-                        restorers.add(m.name)
-                rets = [r.value for r in m.own_nodes() if isinstance(r, ast.Return) and r.value is not None]
-                if rets and all(any(norm(v) in pg.cursors for v in ast.walk(r)) for r in rets) and not any(pg._cursor_write(x) for x in m.own_nodes()):
-                    savers.add(m.name)
+            # restore helpers (validated by their call sites) and look-ahead context managers
+            restorers: Set[str] = {nm for nm in pg._restorers() if not _is_contextmanager(pg.methods[nm])}
             for m in ci.all_methods:
                 if isinstance(m.node, ast.Lambda) or m.name in restorers:
                     continue
